@@ -59,11 +59,15 @@ def run_dec_child(cases, vlimit_kb=24_000_000, per_case_timeout=40):
             got += 1
         if got >= len(chunk):
             break
-        # the child died (or exited after a hang) while working on chunk[got]
+        if got > 0 and results.get(chunk[got - 1]["id"]) == "hang":
+            # the child reported a hang and exited on purpose (the spinning goroutine
+            # cannot be stopped): continue with the next case
+            i += got
+            restarts += 1
+            continue
+        # the child died while working on chunk[got]
         dead = chunk[got]
-        if results.get(dead["id"]) == "hang":
-            pass
-        elif "out of memory" in err or "cannot allocate" in err:
+        if "out of memory" in err or "cannot allocate" in err:
             results[dead["id"]] = "oom"
         elif "TIMEOUT" in err:
             results[dead["id"]] = "hang"
